@@ -33,6 +33,36 @@ Theorem C16_hinted_range_sufficient_for_selection : forall lb ss r lo hi,
 Proof. exact pick_clip. Qed.
 Print Assumptions C16_hinted_range_sufficient_for_selection.
 
+(* Sufficiency of every select's hinted range, for whole operator trees: trimming, for every selector
+   of the plan (instant-vector or matrix selector, with offset, @ pin, inside step-invariant subtrees
+   and in the sub-queries of remote engines), the storage to that selector's own hinted range
+   [Hints.sel_range] leaves the engine's stream - at every node, so the result - exactly as it is;
+   every window, shard count and batch size. (With plan rewrites the selects are other selects with
+   their own ranges; the hints oracle of the check decides those on the real engine.) *)
+From Verif Require Compose Bin Trees HintsTree.
+Theorem C16_hinted_ranges_sufficient_for_operator_trees : forall cf w t,
+  (0 < Compose.c_shards cf)%nat -> (0 < Compose.c_batch cf)%nat -> 0 <= Compose.c_lookback cf ->
+  wf_window w -> Bin.noT < w_start w -> Trees.jok t ->
+  Trees.jrun cf w (HintsTree.jclip w (Compose.c_lookback cf) t) = Trees.jrun cf w t.
+Proof. exact HintsTree.hinted_ranges_sufficient. Qed.
+Print Assumptions C16_hinted_ranges_sufficient_for_operator_trees.
+
+(* the range each selector's storage is trimmed to is the range the planner hints *)
+Theorem C16_trimmed_range_is_the_hinted_range : forall w lb v r,
+  HintsTree.leaf_range w lb r (vorig v) (vat v) = sel_range w lb v r.
+Proof. exact HintsTree.leaf_range_is_sel_range. Qed.
+Print Assumptions C16_trimmed_range_is_the_hinted_range.
+
+(* the range is tight at its lower end: without the sample at hints.Start the first step loses its sample *)
+Example C16_hinted_range_is_tight :
+  let w := mkW 1000 1060 30 in
+  let t := Trees.JLeaf [[(0%N, 1%N)]] [[mkS 700 (Some 5); mkS 1050 (Some 6)]] 0 None in
+  HintsTree.leaf_range w 300 0 0 None = (700, 1060) /\
+  Trees.jrun (Compose.mkCfg 1 10 300) w t = inl [(1000, [(0%nat, 5)]); (1030, []); (1060, [(0%nat, 6)])] /\
+  Trees.jrun (Compose.mkCfg 1 10 300) w (Trees.JLeaf [[(0%N, 1%N)]] [clip 701 1060 [mkS 700 (Some 5); mkS 1050 (Some 6)]] 0 None)
+    = inl [(1000, []); (1030, []); (1060, [(0%nat, 6)])].
+Proof. exact HintsTree.hinted_range_is_tight. Qed.
+
 (* The selector pool shares selectors between the operators of a query by a key that leaves out
    hints.Range; whenever the requests of a query that agree on the key agree on the whole select
    (checked on the select list of every recorded query, CasesLib.hint_case_ok), every operator is
